@@ -32,8 +32,8 @@ def faulted(sc, rng, tier):
     """the scenario with one fault injected at each individual socket operation"""
     out = []
     js = coreutil.scenario_to_json(sc)
-    for conn in ('sockfail', 'otherfail'):
-        s = coreutil.scenario_from_json(js); s.conn = conn; out.append((s, 'connect:' + conn))
+    for conn in ('sockfail', 'otherfail', 'selfail'):
+        s = coreutil.scenario_from_json(js); s.conn = conn; out.append((s, ('connect:' if conn != 'selfail' else 'selector-constructor:') + conn))
     for k in range(0, 8):
         s = coreutil.scenario_from_json(js); s.wfail = {k}; out.append((s, 'write#%d' % k))
     data = stream_of(sc)
